@@ -320,6 +320,14 @@ type KnownFinding struct {
 	Match    map[string]string `json:"match"`
 	Text     string            `json:"text"`
 	Commit   string            `json:"commit,omitempty"`
+	Input    *DirectedInput    `json:"input,omitempty"` // the specific failing input, run by the check on every run
+}
+
+// DirectedInput is the committed reproducer of a known finding.
+type DirectedInput struct {
+	Versions []map[string]string `json:"versions"` // file sets (relative path -> content); histories use more than one
+	Flags    []string            `json:"flags,omitempty"`
+	Args     []string            `json:"args,omitempty"`
 }
 
 func loadKnownFindings() []KnownFinding {
